@@ -312,14 +312,18 @@ fn run_fs(c: &FsCase) -> Outcome {
 	if failing.len() > sc.err_chan as usize {
 		o.label("path-error-burst-larger-than-queue");
 	}
-	if adds != failing.len() {
+	// one error per path the notify error names (the configured path if it names none): a failure below a
+	// recursive root names the sub-directory, not the root
+	let named: Vec<String> = failing.iter().flat_map(|p| crate::mockwatch::reported_paths(c.err_kind, std::path::Path::new(p))).map(|p| p.to_string_lossy().into_owned()).collect();
+	o.label(["error-names-the-path", "error-names-no-path", "error-names-a-sub-entry", "error-names-two-sub-entries"][(c.err_kind / 8 % 4) as usize]);
+	if adds != named.len() {
 		o.fail(
-			if adds < failing.len() { "path-error-lost" } else { "path-error-duplicated" },
-			format!("{adds} PathAdd errors reached the handler, {} registrations failed{}", failing.len(), dump()),
+			if adds < named.len() { "path-error-lost" } else { "path-error-duplicated" },
+			format!("{adds} PathAdd errors reached the handler, {} registrations failed naming {} paths{}", failing.len(), named.len(), dump()),
 		);
 		return o;
 	}
-	for p in &failing {
+	for p in &named {
 		let n = r.errors.iter().filter(|e| e.kind == "path-add" && e.debug.contains(&format!("{p}\""))).count();
 		if n != 1 {
 			o.fail("path-error-names-wrong-path", format!("{n} PathAdd errors name {p}, expected exactly one{}", dump()));
@@ -355,7 +359,7 @@ pub fn check(e: &Engine) {
 		LegOpts::realtime(
 			e.tier.pick(300, 6_000),
 			32,
-			"synthetic notify events and errors emitted through the mock watcher's handler, event queue of 1/2/64 with a slow action handler (overflow), a failing watch() on one of two paths; each event delivered once or reported once, never both or neither; watcher errors exactly once; one PathAdd error naming the path; the other path still registered",
+			"synthetic notify events and errors emitted through the mock watcher's handler, event queue of 1/2/64 with a slow action handler (overflow), a failing watch() on one of two paths (the notify error names that path, no path, one entry below it or two entries below it: one PathAdd error per named path); each event delivered once or reported once, never both or neither; watcher errors exactly once; one PathAdd error naming the path; the other path still registered",
 		),
 		&|| {
 			(
@@ -366,7 +370,7 @@ pub fn check(e: &Engine) {
 				prop_oneof![2 => Just(0u8), 1 => 1u8..13],
 				prop_oneof![Just(1u32), Just(2), Just(64)],
 				any::<bool>(),
-				0u8..8,
+				0u8..32,
 			)
 				.prop_map(|(emits, fail_watch, chan, handler_ms, extra_failing, err_chan, slow_err_handler, err_kind)| FsCase { emits, fail_watch, chan, handler_ms, extra_failing, err_chan, slow_err_handler, err_kind })
 				.boxed()
